@@ -287,6 +287,11 @@ fn run_single_program(
 ) -> i32 {
     let capture = options.capture_output;
     if cl.is_single_and_builtin() {
+        if let Err(info) = builtins::utils::open_redirect_targets(&cl.commands[idx_cmd]) {
+            println_stderr!("cicada: {}", info);
+            *cmd_result = CommandResult::error();
+            return unsafe { libc::getpid() };
+        }
         if let Some(cr) = try_run_builtin(sh, cl, idx_cmd, capture) {
             *cmd_result = cr;
             return unsafe { libc::getpid() };
